@@ -2,22 +2,80 @@ package fakekafka
 
 import (
 	"bytes"
+	"encoding/base64"
 	"encoding/binary"
+	"strings"
 
 	"github.com/xdg-go/scram"
+	"github.com/xdg-go/stringprep"
 
 	"verifharness/fakenet"
 	"verifharness/kwire"
 )
 
 // SaslConfig turns on authentication on every broker of the cluster.
+//
+// The front end behaves like Kafka's SaslServerAuthenticator:
+//   - SaslHandshake is answered with the list of enabled mechanisms; an unknown mechanism gets error 33
+//     (UnsupportedSASLMechanism) and the connection is closed after the response;
+//   - after a v1 handshake the authentication bytes arrive in SaslAuthenticate requests; a failed step is
+//     answered with error 58 (SASLAuthenticationFailed) and the connection is closed after the response;
+//   - after a v0 handshake the bytes arrive as bare size-prefixed tokens; a failed step just closes the connection;
+//   - any other request before the exchange completed closes the connection (broker.go handle()).
+//
+// PLAIN is a hand-written RFC 4616 check (empty user or password rejected, as Kafka does); SCRAM-SHA-256/512 run
+// xdg-go/scram's server conversation, user names are looked up after SASLprep (RFC 5802 5.1).
 type SaslConfig struct {
 	Mechanisms []string          // enabled mechanisms, e.g. PLAIN, SCRAM-SHA-256, SCRAM-SHA-512
 	Users      map[string]string // user -> password
 	// Fault injection, all optional. Step numbers: 0 handshake, 1.. authenticate round.
-	FailStep    int    // -1: none
-	FailKind    string // "error" (error code), "malformed", "badproof", "close"
-	HandshakeV1 bool   // informational: whether v1 is advertised is decided by Versions
+	FailStep int    // step at which FailKind applies
+	FailKind string // "" / "none": no fault; "error" (error code), "malformed", "badproof", "close"
+	FailConn int    // 0: the fault applies to every connection; otherwise only to the fakenet connection with this ID
+	// ErrorCode overrides the code sent by FailKind "error" (default: 34 IllegalSASLState at the handshake, 58 at an authenticate step).
+	ErrorCode   int16
+	HandshakeV1 bool // informational: whether v1 is advertised is decided by Versions
+	// OnEvent, if set, receives the broker's verdicts in order, each before the bytes that carry it are written
+	// (and before the connection is closed): hsok, hsrej, hsgarbled, authcont, authok, authfail, tamper, srvclose.
+	OnEvent func(SaslEvent)
+}
+
+// SaslEvent is one verdict of the SASL front end about one connection.
+type SaslEvent struct {
+	Broker int
+	ConnID int
+	Owner  string
+	Ev     string
+	Round  int // 0 handshake, 1.. authenticate round
+	Info   map[string]interface{}
+}
+
+func (b *Broker) saslEvent(conn *fakenet.Conn, ev string, round int, info map[string]interface{}) {
+	cfg := b.C.Sasl
+	if cfg == nil || cfg.OnEvent == nil {
+		return
+	}
+	cfg.OnEvent(SaslEvent{Broker: b.ID, ConnID: conn.ID, Owner: conn.Owner, Ev: ev, Round: round, Info: info})
+}
+
+// fault returns the fault kind to inject at this step of this connection ("" if none).
+func (cfg *SaslConfig) fault(conn *fakenet.Conn, step int) string {
+	if cfg == nil || cfg.FailKind == "" || cfg.FailKind == "none" || cfg.FailStep != step {
+		return ""
+	}
+	if cfg.FailConn != 0 && cfg.FailConn != conn.ID {
+		return ""
+	}
+	return cfg.FailKind
+}
+
+// sendThenClose writes a complete response frame and tells the connection loop to close.
+func sendThenClose(req *Request, body []byte) Reply {
+	var w kwire.W
+	w.I32(req.CorrID)
+	w.Raw(body)
+	req.Conn.Write(kwire.Frame(w.B))
+	return Reply{Close: true, CutAt: -1}
 }
 
 func (b *Broker) saslHandshake(req *Request, st *connState) Reply {
@@ -25,41 +83,56 @@ func (b *Broker) saslHandshake(req *Request, st *connState) Reply {
 	mech := r.Str()
 	cfg := b.C.Sasl
 	b.journal(req, map[string]interface{}{"mechanism": mech})
-	var w kwire.W
-	ok := false
-	if cfg != nil {
-		for _, m := range cfg.Mechanisms {
-			if m == mech {
-				ok = true
-			}
-		}
-	}
-	if cfg != nil && cfg.FailStep == 0 {
-		switch cfg.FailKind {
-		case "close":
-			return Reply{Close: true, CutAt: -1}
-		case "error":
-			ok = false
-		}
-	}
-	if !ok {
-		w.I16(33) // UnsupportedSASLMechanism
-	} else {
-		w.I16(0)
-		st.saslMech = mech
-		if req.Version == 0 {
-			st.rawSasl = true
-		}
-	}
 	var ms []string
 	if cfg != nil {
 		ms = cfg.Mechanisms
 	}
-	w.ArrayLen(len(ms))
+	enabled := false
 	for _, m := range ms {
-		w.Str(m)
+		if m == mech {
+			enabled = true
+		}
 	}
-	return Body(w.B)
+	body := func(code int16) []byte {
+		var w kwire.W
+		w.I16(code)
+		w.ArrayLen(len(ms))
+		for _, m := range ms {
+			w.Str(m)
+		}
+		return w.B
+	}
+	switch cfg.fault(req.Conn, 0) {
+	case "close":
+		b.saslEvent(req.Conn, "srvclose", 0, nil)
+		return Reply{Close: true, CutAt: -1}
+	case "error":
+		code := int16(34) // IllegalSASLState
+		if cfg.ErrorCode != 0 {
+			code = cfg.ErrorCode
+		}
+		b.saslEvent(req.Conn, "hsrej", 0, map[string]interface{}{"code": int(code), "why": "injected"})
+		return sendThenClose(req, body(code))
+	case "malformed":
+		// a response body that ends in the middle of the error code
+		b.saslEvent(req.Conn, "hsgarbled", 0, nil)
+		return Body([]byte{0})
+	}
+	if !enabled || st.saslMech != "" || st.saslDone {
+		code := int16(33) // UnsupportedSASLMechanism
+		why := "unsupported"
+		if enabled {
+			code, why = 34, "state"
+		}
+		b.saslEvent(req.Conn, "hsrej", 0, map[string]interface{}{"code": int(code), "why": why})
+		return sendThenClose(req, body(code))
+	}
+	st.saslMech = mech
+	if req.Version == 0 {
+		st.rawSasl = true
+	}
+	b.saslEvent(req.Conn, "hsok", 0, map[string]interface{}{"mech": mech, "v": int(req.Version)})
+	return Body(body(0))
 }
 
 type scramState struct {
@@ -67,17 +140,42 @@ type scramState struct {
 	step int
 }
 
+// SaslPrepName is the form under which SCRAM user names are compared (SASLprep; the input itself if it cannot be prepared).
+func SaslPrepName(s string) string {
+	if p, err := stringprep.SASLprep.Prepare(s); err == nil {
+		return p
+	}
+	return s
+}
+
+func (cfg *SaslConfig) scramPassword(user string) (string, bool) {
+	if pw, ok := cfg.Users[user]; ok {
+		return pw, true
+	}
+	for u, pw := range cfg.Users {
+		if SaslPrepName(u) == user {
+			return pw, true
+		}
+	}
+	return "", false
+}
+
 // authStep runs one step of the mechanism; returns response bytes, whether auth is now complete, and ok=false on failure.
 func (b *Broker) authStep(st *connState, in []byte) (out []byte, done bool, ok bool) {
 	cfg := b.C.Sasl
 	switch st.saslMech {
 	case "PLAIN":
+		// message = [authzid] NUL authcid NUL passwd
 		parts := bytes.Split(in, []byte{0})
 		if len(parts) != 3 {
 			return nil, false, false
 		}
-		pw, exists := cfg.Users[string(parts[1])]
-		if !exists || pw != string(parts[2]) {
+		authz, user, pass := string(parts[0]), string(parts[1]), string(parts[2])
+		if user == "" || pass == "" || (authz != "" && authz != user) {
+			return nil, false, false
+		}
+		pw, exists := cfg.Users[user]
+		if !exists || pw != pass {
 			return nil, false, false
 		}
 		return []byte{}, true, true
@@ -89,7 +187,7 @@ func (b *Broker) authStep(st *connState, in []byte) (out []byte, done bool, ok b
 				hg = scram.SHA512
 			}
 			srv, err := hg.NewServer(func(user string) (scram.StoredCredentials, error) {
-				pw, exists := cfg.Users[user]
+				pw, exists := cfg.scramPassword(user)
 				if !exists {
 					return scram.StoredCredentials{}, scramUnknownUser{}
 				}
@@ -122,23 +220,80 @@ type scramUnknownUser struct{}
 
 func (scramUnknownUser) Error() string { return "unknown user" }
 
-func (b *Broker) saslFault(st *connState, round int, out []byte) (override []byte, kind string) {
-	cfg := b.C.Sasl
-	if cfg == nil || cfg.FailStep != round {
-		return out, ""
-	}
-	switch cfg.FailKind {
+// tamper replaces a well-formed SCRAM server message.
+//   - malformed: bytes that are not a SCRAM message at all;
+//   - badproof:  server-first: a nonce that does not extend the client's nonce;
+//     server-final: a well-formed verifier (v=base64) with one bit of the signature flipped.
+func tamper(kind string, out []byte) []byte {
+	switch kind {
 	case "malformed":
-		return []byte("x=garbage,,"), "malformed"
+		return []byte("x=garbage,,")
 	case "badproof":
-		if len(out) > 3 {
-			o := append([]byte{}, out...)
-			o[len(o)-2] ^= 0x15
-			return o, "badproof"
+		s := string(out)
+		switch {
+		case strings.HasPrefix(s, "v="):
+			sig, err := base64.StdEncoding.DecodeString(s[2:])
+			if err != nil || len(sig) == 0 {
+				return []byte("v=AAAA")
+			}
+			sig[len(sig)/2] ^= 0x10
+			return []byte("v=" + base64.StdEncoding.EncodeToString(sig))
+		case strings.HasPrefix(s, "r=") && len(s) > 3:
+			o := []byte(s)
+			if o[2] == 'A' {
+				o[2] = 'B'
+			} else {
+				o[2] = 'A'
+			}
+			return o
 		}
-		return []byte("v=AAAA"), "badproof"
+		return []byte("v=AAAA")
 	}
-	return out, cfg.FailKind
+	return out
+}
+
+// saslStep runs round `round` with the injected fault, emits the verdict and returns what to do:
+// reply bytes (nil: none), the error code (0: none) and whether to close the connection (after the reply, if any).
+func (b *Broker) saslStep(conn *fakenet.Conn, st *connState, round int, in []byte) (out []byte, code int16, closeConn bool) {
+	cfg := b.C.Sasl
+	kind := cfg.fault(conn, round)
+	if kind == "close" {
+		b.saslEvent(conn, "srvclose", round, nil)
+		return nil, 0, true
+	}
+	if st.saslDone {
+		// the exchange is over: further authentication bytes are a protocol violation
+		b.saslEvent(conn, "authfail", round, map[string]interface{}{"why": "state", "code": 34})
+		return nil, 34, true
+	}
+	res, done, ok := b.authStep(st, in)
+	if kind == "error" {
+		c := int16(58)
+		if cfg.ErrorCode != 0 {
+			c = cfg.ErrorCode
+		}
+		b.saslEvent(conn, "authfail", round, map[string]interface{}{"why": "injected", "code": int(c)})
+		return nil, c, true
+	}
+	if !ok {
+		b.saslEvent(conn, "authfail", round, map[string]interface{}{"why": "creds", "code": 58})
+		return nil, 58, true
+	}
+	if (kind == "malformed" || kind == "badproof") && st.saslMech != "PLAIN" {
+		// the broker side of the conversation went well, but the client receives a message it must refuse
+		b.saslEvent(conn, "tamper", round, map[string]interface{}{"kind": kind, "final": done})
+		st.scram = &scramState{} // whatever comes next on this connection is not authenticated
+		st.saslMech = "tampered"
+		return tamper(kind, res), 0, false
+	}
+	if done {
+		st.saslDone = true
+		st.rawSasl = false
+		b.saslEvent(conn, "authok", round, nil)
+	} else {
+		b.saslEvent(conn, "authcont", round, nil)
+	}
+	return res, 0, false
 }
 
 func (b *Broker) saslAuthenticate(req *Request, st *connState) Reply {
@@ -146,51 +301,61 @@ func (b *Broker) saslAuthenticate(req *Request, st *connState) Reply {
 	in := r.Bytes()
 	st.saslRound++
 	b.journal(req, map[string]interface{}{"round": st.saslRound, "bytes": len(in)})
-	if st.saslMech == "" {
+	body := func(code int16, msg *string, data []byte) []byte {
 		var w kwire.W
-		w.I16(34) // IllegalSASLState
-		w.NStr(nil)
-		w.Bytes([]byte{})
-		return Body(w.B)
+		w.I16(code)
+		w.NStr(msg)
+		w.Bytes(data)
+		if req.Version >= 1 {
+			w.I64(0) // session lifetime
+		}
+		return w.B
 	}
-	out, done, ok := b.authStep(st, in)
-	out, kind := b.saslFault(st, st.saslRound, out)
-	var w kwire.W
+	if st.saslMech == "" {
+		b.saslEvent(req.Conn, "authfail", st.saslRound, map[string]interface{}{"why": "state", "code": 34})
+		return sendThenClose(req, body(34, nil, []byte{})) // IllegalSASLState
+	}
+	out, code, closeConn := b.saslStep(req.Conn, st, st.saslRound, in)
 	switch {
-	case kind == "close":
+	case code != 0:
+		msg := "Authentication failed"
+		return sendThenClose(req, body(code, &msg, []byte{}))
+	case closeConn:
 		return Reply{Close: true, CutAt: -1}
-	case kind == "error" || !ok:
-		w.I16(58) // SASLAuthenticationFailed
-		msg := "authentication failed"
-		w.NStr(&msg)
-		w.Bytes([]byte{})
-		rep := Body(w.B)
-		return rep
 	}
-	if done && kind == "" {
-		st.saslDone = true
+	if out == nil {
+		out = []byte{}
 	}
-	w.I16(0)
-	w.NStr(nil)
-	w.Bytes(out)
-	return Body(w.B)
+	return Body(body(0, nil, out))
+}
+
+// looksFramed tells whether a bare token is in fact a complete SaslAuthenticate request (header + bytes field).
+func looksFramed(in []byte) bool {
+	r := kwire.R{B: in}
+	key, ver := r.I16(), r.I16()
+	r.I32()
+	r.NStr()
+	if r.Err != nil || key != SaslAuthenticate || ver < 0 || ver > 2 {
+		return false
+	}
+	r.Bytes()
+	return r.Err == nil && len(r.B) == 0
 }
 
 // rawSaslToken handles one bare token of a handshake-v0 exchange; false closes the connection.
 func (b *Broker) rawSaslToken(conn *fakenet.Conn, st *connState, in []byte) bool {
 	st.saslRound++
-	b.C.record(JournalEntry{Broker: b.ID, ConnID: conn.ID, Owner: conn.Owner, ApiKey: -1, Info: map[string]interface{}{"rawtoken": st.saslRound, "bytes": len(in)}})
-	out, done, ok := b.authStep(st, in)
-	out, kind := b.saslFault(st, st.saslRound, out)
-	if kind == "close" || kind == "error" || !ok {
-		return false // a real broker drops the connection on a failed raw exchange
+	info := map[string]interface{}{"rawtoken": st.saslRound, "bytes": len(in)}
+	if looksFramed(in) {
+		info["looksFramed"] = true
+	}
+	b.C.record(JournalEntry{Broker: b.ID, ConnID: conn.ID, Owner: conn.Owner, ApiKey: -1, Info: info})
+	out, code, closeConn := b.saslStep(conn, st, st.saslRound, in)
+	if code != 0 || closeConn {
+		return false // a real broker drops the connection on a failed raw exchange: there is no frame to carry an error code
 	}
 	var l [4]byte
 	binary.BigEndian.PutUint32(l[:], uint32(len(out)))
 	conn.Write(append(l[:], out...))
-	if done && kind == "" {
-		st.saslDone = true
-		st.rawSasl = false
-	}
 	return true
 }
